@@ -6,8 +6,11 @@ import (
 	"fmt"
 	"go/ast"
 	"go/format"
+	"go/importer"
 	"go/parser"
 	"go/token"
+	"go/types"
+	"math/rand"
 	"os"
 	"path/filepath"
 	"sort"
@@ -18,6 +21,7 @@ import (
 	"github.com/dave/dst/decorator"
 	"github.com/dave/dst/decorator/resolver"
 	"github.com/dave/dst/decorator/resolver/goast"
+	"github.com/dave/dst/decorator/resolver/gotypes"
 	"github.com/dave/dst/decorator/resolver/guess"
 	"github.com/dave/dst/decorator/resolver/simple"
 )
@@ -29,9 +33,10 @@ import (
 // with X and Sel) and with one (a single Ident) -- collapse(slots) must be the Ident's decs.
 
 type c08Input struct {
-	Src      string `json:"src"`
-	Restorer string `json:"restorer"`        // guess | simple
-	Reuse    bool   `json:"reuse,omitempty"` // one FileRestorer restores a partner file (the same imports, each under an alias) first
+	Src       string `json:"src"`
+	Decorator string `json:"decorator,omitempty"` // "" = goast (syntax only) | gotypes (Uses of a go/types check of the file, cgo aware)
+	Restorer  string `json:"restorer"`            // guess | simple
+	Reuse     bool   `json:"reuse,omitempty"`     // one FileRestorer restores a partner file (the same imports, each under an alias) first
 }
 
 // c08PartnerOf: a canonical file that imports every path the source imports by name, each under an
@@ -161,6 +166,10 @@ func accurateNames(src string) map[string]string {
 	}
 	for _, is := range f.Imports {
 		p, _ := strconv.Unquote(is.Path.Value)
+		if n, ok := accurateNameCache[p]; ok {
+			m[p] = n
+			continue
+		}
 		name := p[strings.LastIndex(p, "/")+1:]
 		if ents, err := os.ReadDir(filepath.Join(root, p)); err == nil {
 			for _, e := range ents {
@@ -175,9 +184,13 @@ func accurateNames(src string) map[string]string {
 			}
 		}
 		m[p] = name
+		accurateNameCache[p] = name
 	}
 	return m
 }
+
+// the name found for an import path (a function of the path alone; the harness is single-threaded)
+var accurateNameCache = map[string]string{}
 
 func identPaths(f *dst.File) []string {
 	var out []string
@@ -190,11 +203,81 @@ func identPaths(f *dst.File) []string {
 	return out
 }
 
+// cgo files: import "C" in a declaration of its own and sharing a block with other imports,
+// references into the pseudo-package in every kind of position (calls, conversions, types of
+// variables, fields, parameters and results, comments and line breaks around the dot). With the
+// gotypes resolver (go/types run with FakeImportC records the qualifier C as a package name whose
+// package has the path "C") they are qualified identifiers like any other.
+var c08CgoSources = []string{
+	"package main\n\n// #include <stdio.h>\n// #include <stdlib.h>\nimport \"C\"\n\nimport \"unsafe\"\n\nfunc main() {\n\tcs := C.CString(\"hello\")\n\tdefer C.free(unsafe.Pointer(cs))\n\tC.puts(cs)\n\tvar n C.size_t = C.strlen(cs)\n\t_ = n\n}\n",
+	"package main\n\n/*\n#include <math.h>\n*/\nimport (\n\t\"C\"\n\t\"unsafe\"\n)\n\nfunc root(x float64) float64 {\n\tr := C.sqrt(C.double(x)) // interior comment\n\t_ = unsafe.Sizeof(r)\n\treturn float64(r)\n}\n",
+	"package main\n\n// #include <stdint.h>\n// typedef struct { int32_t a; } pair;\nimport \"C\"\n\ntype T struct {\n\tn C.int32_t // field\n\tp *C.pair\n}\n\nvar zero C.pair\n\nfunc conv(x C.int, ys ...C.long) (C.long, []C.char) {\n\tvar m map[C.int]C.long\n\t_ = m\n\tswitch interface{}(x).(type) {\n\tcase C.int, *C.pair:\n\t}\n\treturn C.long(x), nil\n}\n",
+	"package main\n\n// #include <stdio.h>\n// #include <stdlib.h>\nimport \"C\"\n\nimport (\n\t\"fmt\"\n\t\"os\"\n\n\tstr \"strings\"\n\t\"unsafe\"\n)\n\nfunc main() {\n\tcs := C.CString(str.ToUpper(os.Args[0]))\n\tdefer C. /*a*/ free /*b*/ (unsafe.Pointer(cs))\n\tfmt.Println(C.GoString(cs), // x\n\t\tC.\n\t\t\tputs(cs))\n\tfmt.Fprintln(os.Stderr, C.EOF)\n}\n",
+	"package main\n\nimport (\n\t\"fmt\"\n\t\"unsafe\"\n)\n\n/*\n#include <string.h>\n*/\nimport \"C\"\n\nfunc length(b []byte) int {\n\tn := C.strlen((*C.char)(unsafe.Pointer(&b[0])))\n\tfmt.Println(n)\n\treturn int(n)\n}\n",
+}
+
+// c08SourceImporter: the standard library type-checked from $GOROOT/src (no go tool, no export data)
+var c08SourceImporter types.Importer
+
+// c08TypesDecorate: the file type-checked on its own with go/types (imports from source; cgo
+// aware: FakeImportC) and decorated with the gotypes resolver fed from the Uses of that check.
+// skip: the file does not type-check on its own, so there is no accurate Uses map for it.
+func c08TypesDecorate(src string) (f *dst.File, err error, skip bool, pm string) {
+	fset := token.NewFileSet()
+	af, perr := parser.ParseFile(fset, "a.go", src, parser.ParseComments)
+	if perr != nil {
+		return nil, nil, true, ""
+	}
+	if c08SourceImporter == nil {
+		c08SourceImporter = importer.ForCompiler(token.NewFileSet(), "source", nil)
+	}
+	info := &types.Info{Uses: map[*ast.Ident]types.Object{}, Defs: map[*ast.Ident]types.Object{}}
+	conf := types.Config{Importer: c08SourceImporter, FakeImportC: true}
+	var terr error
+	if p := safely(func() { _, terr = conf.Check("example.com/self", fset, []*ast.File{af}, info) }); p != "" || terr != nil {
+		return nil, nil, true, ""
+	}
+	pm = safely(func() {
+		f, err = decorator.NewDecoratorWithImports(fset, "example.com/self", gotypes.New(info.Uses)).DecorateFile(af)
+	})
+	return
+}
+
+// c08CgoRefs: the references into the cgo pseudo-package as the parser sees them (C.name where
+// the file imports "C" and nothing in the file declares an object named C)
+func c08CgoRefs(src string) int {
+	af, err := parser.ParseFile(token.NewFileSet(), "", src, parser.SkipObjectResolution)
+	if err != nil {
+		return 0
+	}
+	cgo := false
+	for _, is := range af.Imports {
+		if is.Path.Value == "\"C\"" {
+			cgo = true
+		}
+	}
+	n := 0
+	if cgo {
+		ast.Inspect(af, func(nd ast.Node) bool {
+			if se, ok := nd.(*ast.SelectorExpr); ok {
+				if x, ok := se.X.(*ast.Ident); ok && x.Name == "C" {
+					n++
+				}
+			}
+			return true
+		})
+	}
+	return n
+}
+
 func c08Check(in c08Input) (key, what string) {
 	if !isCanonical(in.Src) {
 		return "", ""
 	}
 	names := accurateNames(in.Src)
+	if in.Decorator == "gotypes" {
+		return c08CheckTypes(in, names)
+	}
 	var rr resolver.RestorerResolver
 	if in.Restorer == "simple" {
 		rr = simple.New(names)
@@ -277,8 +360,77 @@ func c08Check(in c08Input) (key, what string) {
 	return "", ""
 }
 
+// c08CheckTypes: the same demands with the type-based identifier resolver
+func c08CheckTypes(in c08Input, names map[string]string) (key, what string) {
+	var rr resolver.RestorerResolver
+	if in.Restorer == "simple" {
+		rr = simple.New(names)
+	} else {
+		rr = guess.WithMap(names)
+	}
+	f, err, skip, pm := c08TypesDecorate(in.Src)
+	if skip {
+		return "", ""
+	}
+	if pm != "" {
+		return "c08-panic", "decorating (gotypes) panicked: " + pm
+	}
+	if err != nil {
+		return "c08-decorate-error", "decorating a type-correct file with the gotypes resolver failed: " + err.Error()
+	}
+	before := identPaths(f)
+	// the accurate resolver reports every reference into the cgo pseudo-package under the path "C"
+	// (go/types: the qualifier is a PkgName whose package has that path)
+	if want := c08CgoRefs(in.Src); want > 0 {
+		got := 0
+		for _, p := range before {
+			if strings.HasSuffix(p, "@C") {
+				got++
+			}
+		}
+		if got != want {
+			return "c08-cgo-paths", fmt.Sprintf("the file has %d references into the cgo pseudo-package, %d identifiers carry the path \"C\" after decoration", want, got)
+		}
+	}
+	var out string
+	pm = safely(func() {
+		var buf bytes.Buffer
+		err = decorator.NewRestorerWithImports("example.com/self", rr).Fprint(&buf, f)
+		out = buf.String()
+	})
+	if pm != "" {
+		return "c08-panic", "restoring panicked: " + pm
+	}
+	if err != nil {
+		return "c08-error", "restoring failed: " + err.Error()
+	}
+	if out != in.Src {
+		k := "c08-bytes"
+		paths := map[string]int{}
+		if pf, perr := parser.ParseFile(token.NewFileSet(), "", in.Src, parser.ImportsOnly); perr == nil {
+			for _, is := range pf.Imports {
+				paths[is.Path.Value]++
+			}
+		}
+		for _, n := range paths {
+			if n > 1 {
+				k = "duplicate-path-import"
+			}
+		}
+		return k, "unedited decorate (gotypes resolver) + import-managed restore changed the file:\n" + firstDiff(in.Src, out)
+	}
+	f2, err, skip, pm := c08TypesDecorate(out)
+	if skip || pm != "" || err != nil {
+		return "c08-redecorate", fmt.Sprintf("the output does not type-check / decorate again: %v %s", err, pm)
+	}
+	if strings.Join(before, " ") != strings.Join(identPaths(f2), " ") {
+		return "c08-paths", "re-decorating the output gives different path annotations"
+	}
+	return "", ""
+}
+
 func c08Prop(c *Ctx) {
-	c.Res.Rule = "hand-written canonical files (aliased, blank, cgo, multi-block, commented specs; qualified identifiers with comments and line breaks around the dot; generic constraints) + canonical $GOROOT/src files with imports, decorated with the goast resolver and restored with guess (seeded with accurate names) and simple resolvers; non-trivial = distinct (file, restorer) that decorates without error"
+	c.Res.Rule = "hand-written canonical files (aliased, blank, cgo, multi-block, commented specs; qualified identifiers with comments and line breaks around the dot; generic constraints) + canonical $GOROOT/src files with imports, decorated with the goast resolver and restored with guess (seeded with accurate names) and simple resolvers; the hand-written files and a family of cgo files (import of C alone / sharing a block, C.f calls, C.t types in every position, comments around the dot) also type-checked with go/types (FakeImportC, imports from source) and decorated with the gotypes resolver; non-trivial = distinct (file, restorer) that decorates without error"
 	srcs := append([]string{}, c08Sources...)
 	// the recorded finding duplicate-path-import
 	srcs = append(srcs, "package a\n\nimport (\n\t\"unsafe\"\n\t_ \"unsafe\"\n)\n\nvar _ = unsafe.Sizeof(0)\n")
@@ -304,7 +456,43 @@ func c08Prop(c *Ctx) {
 			}
 		}
 	}
+	// cgo files, and the same with comments and line breaks around the dots (own random stream:
+	// the sample above stays as it was)
+	crng := rand.New(rand.NewSource(c.Seed*7919 + 8))
+	whole := map[string]bool{} // files that are a whole package: they can be type-checked on their own
+	for _, src := range c08CgoSources {
+		srcs = append(srcs, src)
+		for k := 0; k < 2; k++ {
+			if b, err := format.Source([]byte(selGaps(crng, src))); err == nil && string(b) != src {
+				srcs = append(srcs, string(b))
+			}
+		}
+	}
+	for _, src := range srcs {
+		if strings.HasPrefix(src, "package main\n") || strings.HasPrefix(src, "package a\n") {
+			whole[src] = true
+		}
+	}
 	for si, src := range srcs {
+		if whole[src] {
+			// the type-based identifier resolver
+			for _, rk := range []string{"guess", "simple"} {
+				in := c08Input{Src: src, Decorator: "gotypes", Restorer: rk}
+				if _, _, skip, _ := c08TypesDecorate(src); skip || !isCanonical(src) {
+					c.Res.hist("c08-restorer", "gotypes: file does not type-check on its own (skipped)")
+					continue
+				}
+				c.Res.Evaluations++
+				c.Res.seen(fmt.Sprint(len(src), "gotypes", rk, src[:min(len(src), 60)]))
+				c.Res.hist("c08-restorer", "gotypes decorator, "+rk)
+				if n := c08CgoRefs(src); n > 0 {
+					c.Res.hist("c08-cgo", "gotypes decorator, file with references into C")
+				}
+				if key, what := c08Check(in); key != "" {
+					c.Res.fail(key, what, in)
+				}
+			}
+		}
 		if si%2 == 0 {
 			in := c08Input{Src: src, Restorer: "guess", Reuse: true}
 			c.Res.Evaluations++
